@@ -115,6 +115,19 @@ Proof.
     + discriminate.
 Qed.
 
+(** the massless-chain loop never goes round twice: findHeaviest* start from maxMass = 0 with a strict comparison, so
+    they only ever return a joint to a massful body, and the "add another massless body and keep trying" branches of
+    growTree are unreachable *)
+Lemma chain_one_step J f s added : chain B (S f) J s added = chain B 1 J s added.
+Proof.
+  simpl. destruct (findFwd B J s (lastOutb s)) as [jf|] eqn:Ef.
+  - apply findFwd_spec in Ef. destruct Ef as (_ & _ & _ & _ & _ & Hm).
+    assert (E : Z.gtb (massOf B (jchi (nth jf J jd))) 0 = true) by (apply Z.gtb_lt; lia). rewrite E. reflexivity.
+  - destruct (findRev B J s (lastOutb s)) as [jr|] eqn:Er; auto.
+    apply findRev_spec in Er. destruct Er as (_ & _ & _ & _ & _ & Hm).
+    assert (E : Z.gtb (massOf B (jpar (nth jr J jd))) 0 = true) by (apply Z.gtb_lt; lia). rewrite E. reflexivity.
+Qed.
+
 Hypothesis F_pos : 1 <= F.
 
 Lemma sweep_no_oof J l0 : forall jns s added any, sweep T B F J l0 jns s added any <> OutOfFuel.
